@@ -489,7 +489,7 @@ impl AsyncWriter {
 
 #[cfg(feature = "mmap")]
 fn make_mmap(tmpfile: &mut NamedTempFile, size: Option<usize>) -> Result<Option<MmapMut>> {
-    if let Some(size @ 0..=MAX_MMAP_SIZE) = size {
+    if let Some(size @ 1..=MAX_MMAP_SIZE) = size {
         allocate_file(tmpfile.as_file(), size).with_context(|| {
             format!(
                 "Failed to configure file length for temp file at {}",
